@@ -750,7 +750,7 @@ done:
 				switch tv := prev.(type) {
 				case []any:
 					for i, vv := range tv {
-						if tf.Match(vv) {
+						if tf.matchRoot(vv, data) {
 							if nv, changed := modifier(vv); changed {
 								tv[i] = nv
 								if one && changed {
@@ -763,7 +763,7 @@ done:
 					size := tv.Size()
 					for i := 0; i < size; i++ {
 						v = tv.ValueAtIndex(i)
-						if tf.Match(v) {
+						if tf.matchRoot(v, data) {
 							if nv, changed := modifier(v); changed {
 								tv.SetValueAtIndex(i, nv)
 								if one && changed {
@@ -774,7 +774,7 @@ done:
 					}
 				case gen.Array:
 					for i, vv := range tv {
-						if tf.Match(vv) {
+						if tf.matchRoot(vv, data) {
 							if nv, changed := modifier(vv); changed {
 								tv[i] = asNode(nv)
 								if one && changed {
@@ -791,7 +791,7 @@ done:
 						for i := 0; i < cnt; i++ {
 							iv := rv.Index(i)
 							vv := iv.Interface()
-							if tf.Match(vv) {
+							if tf.matchRoot(vv, data) {
 								if nv, changed := modifier(vv); changed {
 									iv.Set(reflectValueFor(nv, iv.Type()))
 									if one && changed {
@@ -808,7 +808,7 @@ done:
 						for _, k := range keys {
 							ev := rv.MapIndex(k)
 							vv := ev.Interface()
-							if tf.Match(vv) {
+							if tf.matchRoot(vv, data) {
 								if nv, changed := modifier(vv); changed {
 									rv.SetMapIndex(k, reflectValueFor(nv, rv.Type().Elem()))
 									if one && changed {
